@@ -485,6 +485,8 @@ def run(ck):
     ok, info = ck.lean_obligations("DS.Props.C14")
     # the lattice attributes enter through LatOK, discharged for the Lattice model (DS.Props.Bridge); that model is tied to lattice.py here
     tie_ok, tie_info = ck.source_tie("DS.Props.SrcLattice")
+    # placeInLattice itself (matrices + loop body) and the U getter/setter it goes through
+    tie2_ok, tie2_info = ck.source_tie("DS.Props.SrcStructure")
     ncase = 300 if ck.tier == "quick" else 10000
     maxchain = 4 if ck.tier == "quick" else 6
     rng = ck.rng
@@ -569,6 +571,7 @@ def run(ck):
     if w:
         ck.fail("witness:demo", "the implementation does not reproduce the Lean witness DS.Props.C14.demo: %r" % (w,), {"kind": "witness", "got_expected": w})
     ck.tie_verdict(tie_ok, tie_info, "lattice.py")
+    ck.tie_verdict(tie2_ok, tie2_info, "structure.py placeInLattice / atom.py")
     if not ok and not ck.violations:
         ck.fail("lean-build", "Lean obligations of C14 no longer check: %r" % info["failed_modules"],
                 {"kind": "proof-obligation", "theorem": info["failed_modules"], "errors": info["errors"]}, no_failing_input=True)
